@@ -514,7 +514,7 @@ size_t ZSTD_ldm_generateSequences(
 {
     U32 const maxDist = 1U << params->windowLog;
     BYTE const* const istart = (BYTE const*)src;
-    BYTE const* const iend = istart + srcSize;
+    BYTE const* const iend = (srcSize == 0) ? istart : istart + srcSize;   /* (an empty job has no source pointer) */
     size_t const kMaxChunkSize = 1 << 20;
     size_t const nbChunks = (srcSize / kMaxChunkSize) + ((srcSize % kMaxChunkSize) != 0);
     size_t chunk;
@@ -524,7 +524,7 @@ size_t ZSTD_ldm_generateSequences(
     /* Check that ZSTD_window_update() has been called for this chunk prior
      * to passing it to this function.
      */
-    assert(ldmState->window.nextSrc >= (BYTE const*)src + srcSize);
+    assert(ldmState->window.nextSrc >= iend);
     /* The input could be very large (in zstdmt), so it must be broken up into
      * chunks to enforce the maximum distance and handle overflow correction.
      */
